@@ -8,7 +8,8 @@ import simdist
 RULE = ('every n in 1..N with position-revealing symmetric integer matrices in float16/32/64, '
         'contiguous / transposed / strided-window inputs through the real get_triu/fill_triu and the '
         'symmetric allreduce/broadcast paths under simdist; malformed (non-square, non-2-D) shapes through '
-        'the three communicator entry points; non-trivial = n ≥ 2; distinct = (n, dtype, layout) or shape')
+        'the three communicator entry points; non-trivial = n ≥ 2; distinct = (n, dtype, layout) or shape'
+        '; bit-exact round trips of extreme entries (max/min normal, subnormal, ±0, ±inf) in four dtypes; n = 1023…2049 (3000 thorough); several symmetric tensors in flight through the bucketed path at capacities around one packed tensor; sub-groups whose group-local ranks differ from the global ones')
 TRUSTED = [
     'Lean 4.33 kernel; axioms audited ⊆ {propext, Classical.choice, Quot.sound}',
     'hand-written model KV.Comm.getTriu/fillTriu/checkShape tied to kfac/distributed.py by this correspondence',
